@@ -20,7 +20,7 @@ ADD = lambda name, e: ("assign", name, B("+", V(name), e))
 FORMS = ["if", "ifelse_then", "ifelse_else", "elif_first", "elif_second", "elif_else", "while", "while_sym", "from_to",
          "from_through_step", "from_named", "from_symstep", "from_symbounds", "from_collide", "from_anon_sym"]
 LOOPS = {"while", "while_sym", "from_to", "from_through_step", "from_named", "from_symstep", "from_symbounds", "from_collide", "from_anon_sym"}
-LEAVES = ["plain", "break", "continue", "return", "print", "assert", "div", "logic", "call", "rec", "opassign", "nested_fn_loop"]
+LEAVES = ["plain", "break", "continue", "return", "print", "assert", "div", "logic", "call", "rec", "opassign", "nested_fn_loop", "constops"]
 
 
 def leaf_stmts(leaf, d):
@@ -48,6 +48,11 @@ def leaf_stmts(leaf, d):
         return [ADD("acc", ("call", "r", [B("%", p, I(3))]))]
     if leaf == "opassign":
         return [("opassign", "acc", "+", p), ("opassign", "acc", "-", I(1))]
+    if leaf == "constops":
+        # arithmetic with constant operands (what a code generator likes to rewrite): truncating division and remainder of negative
+        # values by powers of two, multiplication by a power of two
+        q = B("-", B("%", p, I(100)), I(50))
+        return [("print", B("/", q, I(2))), ("print", B("%", q, I(4))), ("print", B("/", q, I(8))), ("print", B("*", q, I(8))), ("print", B("/", q, I(-4))), ADD("acc", I(1))]
     if leaf == "nested_fn_loop":
         return [ADD("acc", ("call", "h", [I(2), p])), ("print", V("acc"))]
     raise ValueError(leaf)
